@@ -141,7 +141,7 @@ structure Cls where
   deriving DecidableEq, Repr, Inhabited
 
 /-- CIMProperty of an instance -/
-structure Prop where
+structure PropV where
   name  : Name
   ty    : Name
   isArr : Bool
@@ -151,7 +151,7 @@ structure Prop where
 /-- CIMInstance without path: classname as given by the client + NocaseDict of properties -/
 structure Inst where
   cls   : Name
-  props : List Prop
+  props : List PropV
   deriving DecidableEq, Repr, Inhabited
 
 /-- one item of `InMemoryObjectStore._data`: dict key, and the stored instance with its own path -/
@@ -176,7 +176,7 @@ structure Repo where
 structure RInst where
   cls   : Name
   path  : Path
-  props : List Prop
+  props : List PropV
   deriving DecidableEq, Repr, Inhabited
 
 inductive Op where
@@ -213,7 +213,7 @@ def findCls (cs : List Cls) (n : Name) : Option Cls := cs.find? (fun c => nameEq
 
 def findDecl (c : Cls) (n : Name) : Option PropDecl := c.props.find? (fun d => nameEq d.name n)
 
-def findProp (ps : List Prop) (n : Name) : Option Prop := ps.find? (fun p => nameEq p.name n)
+def findProp (ps : List PropV) (n : Name) : Option PropV := ps.find? (fun p => nameEq p.name n)
 
 /-- mirrors pywbem_mock/_inmemoryrepository.py: InMemoryObjectStore.get / object_exists -/
 def lookupInst (insts : List Stored) (p : Path) : Option Stored := insts.find? (fun s => pathEq s.key p)
@@ -242,18 +242,18 @@ def reqPath (ns : Name) (p : Path) : Path := { p with host := none, ns := some n
 /-! ### property validation (dispatcher) -/
 
 /-- mirrors pywbem_mock/_providerdispatcher.py: ProviderDispatcher._validate_property -/
-def validProp (c : Cls) (p : Prop) : Bool :=
+def validProp (c : Cls) (p : PropV) : Bool :=
   match findDecl c p.name with
   | none => false
   | some d => d.ty == p.ty && d.isArr == p.isArr
 
 /-- "Adjust the lexical case of the property names … to match … the creation class" -/
-def adjustName (c : Cls) (p : Prop) : Prop :=
+def adjustName (c : Cls) (p : PropV) : PropV :=
   match findDecl c p.name with
   | some d => { p with name := d.name }
   | none => p
 
-def adjustNames (c : Cls) (ps : List Prop) : List Prop := ps.map (adjustName c)
+def adjustNames (c : Cls) (ps : List PropV) : List PropV := ps.map (adjustName c)
 
 /-- mirrors pywbem/_cim_obj.py: _cim_keybinding on a property value -/
 def keyOfVal (n : Name) (v : Val) : Except PyExc (Name × KV) :=
@@ -265,7 +265,7 @@ def keyOfVal (n : Name) (v : Val) : Except PyExc (Name × KV) :=
 def keyDecls (c : Cls) : List PropDecl := c.props.filter (·.isKey)
 
 /-- mirrors pywbem/_cim_obj.py: CIMInstanceName.from_instance (strict=True) -/
-def fromInstance (c : Cls) (ps : List Prop) (ns : Name) : Except PyExc Path :=
+def fromInstance (c : Cls) (ps : List PropV) (ns : Name) : Except PyExc Path :=
   if (keyDecls c).any (fun d => (findProp ps d.name).isNone) then .error .valueError
   else
     match ((keyDecls c).filterMap (fun d => (findProp ps d.name).map (fun p => (d.name, p.val)))).mapM
@@ -274,7 +274,7 @@ def fromInstance (c : Cls) (ps : List Prop) (ns : Name) : Except PyExc Path :=
     | .ok keys => .ok { cls := c.name, ns := some ns, host := none, keys := keys }
 
 /-- mirrors pywbem_mock/_instancewriteprovider.py: InstanceWriteProvider.create_new_instance_path -/
-def newInstancePath (c : Cls) (ps : List Prop) (ns : Name) : Except PyExc Path :=
+def newInstancePath (c : Cls) (ps : List PropV) (ns : Name) : Except PyExc Path :=
   match fromInstance c ps ns with
   | .error .valueError => .error (.cimError cimErrInvalidParameter)
   | x => x
@@ -283,7 +283,7 @@ def newInstancePath (c : Cls) (ps : List Prop) (ns : Name) : Except PyExc Path :
 
 def tyReference : Name := "reference".toList
 
-def isRef (p : Prop) : Bool := p.ty == tyReference
+def isRef (p : PropV) : Bool := p.ty == tyReference
 
 def path0ToPath (p : Path0) : Path :=
   { cls := p.cls, ns := p.ns, host := p.host, keys := p.keys.map (fun e => (e.1, KV.sc e.2)) }
@@ -297,11 +297,10 @@ def checkEndpoint (r : Repo) (v : Val) : Option PyExc :=
     else match p.ns with
       | none => some (.cimError cimErrInvalidParameter)
       | some ns =>
-        if p.keys.isEmpty then none      -- `if not path: return True`
-        else match findNs r ns with
-          | none => some (.cimError cimErrInvalidParameter)
-          | some e => if (lookupInst e.insts (path0ToPath p)).isSome then none
-                      else some (.cimError cimErrInvalidParameter)
+        match findNs r ns with
+        | none => some (.cimError cimErrInvalidParameter)
+        | some e => if (lookupInst e.insts (path0ToPath p)).isSome then none
+                    else some (.cimError cimErrInvalidParameter)
   | .one (.sc _) => some .attributeError      -- a non-path value in a reference property: `.host` fails
   | .arr _ => some .attributeError
   | .null => none
@@ -312,7 +311,7 @@ def firstErr {α} (f : α → Option PyExc) : List α → Option PyExc
   | x :: xs => match f x with | some e => some e | none => firstErr f xs
 
 /-- CreateInstance: every non-NULL reference property must name an existing instance -/
-def checkRefsCreate (r : Repo) (ps : List Prop) : Option PyExc :=
+def checkRefsCreate (r : Repo) (ps : List PropV) : Option PyExc :=
   firstErr (fun p => if isRef p then (match p.val with | .null => none | v => checkEndpoint r v) else none) ps
 
 /-- namespace of a reference value -/
@@ -326,7 +325,7 @@ def addNs (acc : List Name) (n : Name) : List Name := if acc.any (nameEq · n) t
 
 /-- mirrors pywbem_mock/_instancewriteprovider.py: InstanceWriteProvider.find_multins_association_ref_namespaces
     (after the fixes: NULL ends skipped, namespaces compared case-insensitively) -/
-def multiNs (ps : List Prop) (target : Name) : List Name :=
+def multiNs (ps : List PropV) (target : Name) : List Name :=
   ps.foldl (fun acc p =>
     if isRef p then
       match refNs p.val with
@@ -353,11 +352,12 @@ def createSingle (r : Repo) (c : Cls) (i : Inst) (ns : Name) : Repo × Out :=
     | none => (r, errExists)
     | some r' => (r', .path path)
 
-/-- class of the instance exists in namespace `ns` (`get_required_class`) -/
-def classIn (r : Repo) (cls : Name) (ns : Name) : Bool :=
+/-- mirrors pywbem_mock/_instancewriteprovider.py: InstanceWriteProvider.get_required_class
+    (`get_class_store` raises KeyError for a namespace that does not exist); `none` = ok -/
+def classIn (r : Repo) (cls : Name) (ns : Name) : Option PyExc :=
   match findNs r ns with
-  | none => false
-  | some e => (findCls e.classes cls).isSome
+  | none => some .keyError
+  | some e => if (findCls e.classes cls).isSome then none else some (.cimError cimErrInvalidClass)
 
 def existsIn (r : Repo) (ns : Name) (p : Path) : Bool :=
   match findNs r ns with
@@ -374,8 +374,9 @@ def addAll (r : Repo) (path : Path) (i : Inst) : List Name → Repo
 /-- mirrors pywbem_mock/_instancewriteprovider.py: InstanceWriteProvider.create_multi_namespace_instance -/
 def createMulti (r : Repo) (c : Cls) (i : Inst) (orig : Name) (others : List Name) : Repo × Out :=
   let nsl := others ++ [orig]
-  if nsl.any (fun n => !classIn r i.cls n) then (r, errClass)
-  else
+  match firstErr (classIn r i.cls) nsl with
+  | some ex => (r, .err ex)
+  | none =>
     match newInstancePath c i.props orig with
     | .error e => (r, .err e)
     | .ok path =>
@@ -414,7 +415,7 @@ def plBad (c : Cls) (pl : Option (List Name)) : Bool :=
 
 /-- key properties cannot change: `prop_cls.qualifiers.get('key') and prop_inst.value != instance[pn]`;
     `instance[pn]` raises KeyError when the stored instance lacks the property -/
-def keyCheck (c : Cls) (stored : List Prop) (p : Prop) : Option PyExc :=
+def keyCheck (c : Cls) (stored : List PropV) (p : PropV) : Option PyExc :=
   match findDecl c p.name with
   | none => some (.cimError cimErrInvalidParameter)
   | some d =>
@@ -429,7 +430,7 @@ def inPl (pl : List Name) (n : Name) : Bool := pl.any (nameEq · n)
 
 /-- a property named in PropertyList but missing in ModifiedInstance gets the class default
     (mirrors the dispatcher after the fix: the CIMProperty is built from the declaration) -/
-def plDefaults (c : Cls) (ps : List Prop) (pl : List Name) : List Prop :=
+def plDefaults (c : Cls) (ps : List PropV) (pl : List Name) : List PropV :=
   pl.foldl (fun acc pn =>
     if (findProp acc pn).isSome then acc
     else match findDecl c pn with
@@ -438,7 +439,7 @@ def plDefaults (c : Cls) (ps : List Prop) (pl : List Name) : List Prop :=
 
 /-- key properties named in PropertyList and missing in ModifiedInstance would be reset to the class
     default: rejected unless the default is the stored value (dispatcher after the fix) -/
-def plKeyCheck (c : Cls) (stored : List Prop) (ps : List Prop) (pl : List Name) : Option PyExc :=
+def plKeyCheck (c : Cls) (stored : List PropV) (ps : List PropV) (pl : List Name) : Option PyExc :=
   firstErr (fun pn =>
     if (findProp ps pn).isSome then none
     else match findDecl c pn with
@@ -451,27 +452,27 @@ def plKeyCheck (c : Cls) (stored : List Prop) (ps : List Prop) (pl : List Name) 
       | none => none) pl
 
 /-- "Reduce modified_instance to have just the properties to be modified" -/
-def reduceByPl (c : Cls) (ps : List Prop) (pl : Option (List Name)) : List Prop :=
+def reduceByPl (c : Cls) (ps : List PropV) (pl : Option (List Name)) : List PropV :=
   match pl with
   | none => ps
   | some l => (plDefaults c ps l).filter (fun p => inPl l p.name)
 
 /-- mirrors pywbem/_cim_obj.py: CIMInstance.update with a NocaseDict of CIMProperty
     (existing names keep their position, new names are appended) -/
-def updateProps (old : List Prop) (new : List Prop) : List Prop :=
+def updateProps (old : List PropV) (new : List PropV) : List PropV :=
   new.foldl (fun acc p =>
     if (findProp acc p.name).isSome then acc.map (fun q => if nameEq q.name p.name then p else q)
     else acc ++ [p]) old
 
 /-- ModifyInstance (provider): NULL reference ends are refused, changed ends must exist -/
-def checkRefsModify (r : Repo) (stored : List Prop) (ps : List Prop) : Option PyExc :=
+def checkRefsModify (r : Repo) (stored : List PropV) (ps : List PropV) : Option PyExc :=
   firstErr (fun p =>
     if isRef p then
       match p.val with
       | .null => some (.cimError cimErrInvalidParameter)
       | v =>
         match findProp stored p.name with
-        | none => some .keyError
+        | none => checkEndpoint r v            -- `pn not in original_instance`
         | some sp => if valNe v sp.val then checkEndpoint r v else none
     else none) ps
 
@@ -486,9 +487,11 @@ def replaceAll (r : Repo) (path : Path) (i : Inst) : List Name → Repo
     (after the fix: one copy per namespace) -/
 def modifyMulti (r : Repo) (path : Path) (i : Inst) (others : List Name) : Repo × Out :=
   let nsl := others ++ [(path.ns.getD [])]
-  if nsl.any (fun n => !classIn r i.cls n) then (r, errClass)
-  else if nsl.any (fun n => !existsIn r n { path with ns := some n }) then (r, errNotFound)
-  else (replaceAll r path i nsl, .unit)
+  match firstErr (classIn r i.cls) nsl with
+  | some ex => (r, .err ex)
+  | none =>
+    if nsl.any (fun n => !existsIn r n { path with ns := some n }) then (r, errNotFound)
+    else (replaceAll r path i nsl, .unit)
 
 /-- mirrors pywbem_mock/_providerdispatcher.py: ProviderDispatcher.ModifyInstance and
     pywbem_mock/_instancewriteprovider.py: InstanceWriteProvider.ModifyInstance -/
@@ -521,7 +524,9 @@ def stepModify (r : Repo) (path : Path) (inst : Inst) (pl : Option (List Name)) 
                   let ni : Inst := { cls := st.inst.cls, props := updateProps st.inst.props ps }
                   let others := if c.isAssoc then multiNs ni.props ns else []
                   if others.isEmpty then
-                    (setInsts r ns (fun l => replaceInst l st.path st.path ni), .unit)
+                    -- `instance_store.update(original_instance.path, …)`: KeyError if that is no key
+                    if (lookupInst e.insts st.path).isNone then (r, .err .keyError)
+                    else (setInsts r ns (fun l => replaceInst l st.path st.path ni), .unit)
                   else modifyMulti r st.path ni others
 
 /-! ### DeleteInstance -/
@@ -560,7 +565,7 @@ def stepDelete (r : Repo) (path : Path) : Repo × Out :=
 /-! ### GetInstance / enumerations -/
 
 /-- mirrors pywbem_mock/_baseprovider.py: BaseProvider.filter_properties -/
-def filterProps (pl : Option (List Name)) (ps : List Prop) : List Prop :=
+def filterProps (pl : Option (List Name)) (ps : List PropV) : List PropV :=
   match pl with
   | none => ps
   | some l => ps.filter (fun p => inPl l p.name)
